@@ -998,6 +998,17 @@ impl PipelineStage<i64, i64> for ConcStage {
     fn name(&self) -> &str { "conc" }
     fn max_concurrency(&self) -> usize { self.conc }
 }
+/// A stage every item of which really suspends for 30 ms - far inside the 500 ms stage timeout of its cases, while a batch of
+/// twenty takes longer than the timeout in total: the stage timeout is per item ("Timeout for individual stage processing"),
+/// so the batch result is still the stage applied in input order
+struct PacedStage { batching: bool }
+impl PipelineStage<i64, i64> for PacedStage {
+    fn process(&self, x: i64) -> Pin<Box<dyn Future<Output = ZResult<i64>> + Send + '_>> {
+        Box::pin(async move { tokio::time::sleep(Duration::from_millis(30)).await; stage(x) })
+    }
+    fn name(&self) -> &str { "paced" }
+    fn supports_batching(&self) -> bool { self.batching }
+}
 fn seq_map_slow(xs: &[i64]) -> Option<Vec<i64>> {
     if xs.iter().any(|x| x.rem_euclid(32) == 7) { return None; }
     seq_map(xs, false)
@@ -1022,6 +1033,7 @@ fn batch_case(cx: &mut Ctx, which: u64, enable_batching: bool, xs: &[i64], force
             let mut cfg = PipelineConfig::default();
             cfg.enable_batching = enable_batching;
             if which == 3 || which == 4 { cfg.stage_timeout = Duration::from_millis(8); }
+            if which == 9 { cfg.stage_timeout = Duration::from_millis(500); }
             let p = Pipeline::new(cfg);
             type Fb = fn(Vec<i64>) -> ZResult<Vec<i64>>;
             let res = match which {
@@ -1031,6 +1043,7 @@ fn batch_case(cx: &mut Ctx, which: u64, enable_batching: bool, xs: &[i64], force
                         |b: Vec<i64>| -> ZResult<Vec<i64>> { b.into_iter().map(stage).collect() }), xv).await,
                 3 => p.process_batch(SlowStage { batching: false }, xv).await,
                 4 => p.process_batch(SlowStage { batching: true }, xv).await,
+                9 => p.process_batch(PacedStage { batching: false }, xv).await,
                 w => p.process_batch(ConcStage { conc: [2usize, 4, 8, 64][(w as usize - 5) % 4] }, xv).await,
             };
             let st = p.stats().await;
@@ -1431,7 +1444,7 @@ fn run_one(cx: &mut Ctx, c: &Value) {
             pool_hist_case(cx, u(&c["max_fibers"], 2).max(1) as usize, &ops, &ints(&c["gates"]), true)
         }
         "reduce" => reduce_case(cx, u(&c["which"], 0).min(1), u(&c["rt"], 0) as usize, u(&c["mw"], 2) as usize, &ops, true),
-        "process_batch" => batch_case(cx, u(&c["which"], 0).min(8), c["batching"].as_bool().unwrap_or(false), &ops, true),
+        "process_batch" => batch_case(cx, u(&c["which"], 0).min(9), c["batching"].as_bool().unwrap_or(false), &ops, true),
         "single" => single_case(cx, &ops),
         "stream" => stream_case(cx, u(&c["rt"], 0) as usize, u(&c["stages"], 1).max(1) as usize, u(&c["buffer"], 1) as usize, c["slow"].as_bool().unwrap_or(false),
                                 c["panics"].as_bool().unwrap_or(false), &ops),
@@ -1762,6 +1775,15 @@ pub fn run(args: &Args) {
                     for &(st, buf) in &[(1usize, 1usize), (2, 1), (3, 2), (2, 64), (2, 0)] { stream_case(&mut cx, rt, st, buf, false, false, &xs); }
                 }
             }
+        }
+        // twenty items of 30 ms each under a 500 ms stage timeout: no single item is late, the batch as a whole takes longer
+        {
+            let mut r = cx.rng.clone();
+            let mut xs = rand_items(&mut r, 20, 0);
+            for x in xs.iter_mut() { if x.rem_euclid(16) == 13 { *x += 1; } }
+            cx.rng = r;
+            batch_case(&mut cx, 9, false, &xs, false);
+            batch_case(&mut cx, 9, true, &xs, false);
         }
         // timed-out items (each costs the stage timeout, so only a few)
         for &n in &[1usize, 3, 6] {
